@@ -1171,7 +1171,7 @@ class GenA:
             w["u_mul"] = 1
         kinds = sorted(w)
         weights = [w[k] for k in kinds]
-        n_ops = rng.choice([8, 15, 25, 40, 60])
+        n_ops = rng.choice([8, 15, 25, 40, 60] if not self.params.get("long") else [15, 40, 60, 90, 120, 160])
         inject_at = None
         if self.params.get("faults", True) and rng.random() < 0.3:
             inject_at = rng.randrange(n_ops)
